@@ -393,6 +393,7 @@ fn evaluate_stub() -> Eval {
         max_steps: 1,
         continue_after_error: false,
         source_override: None,
+        dig_file: None,
     };
     evaluate(Prop::C02, &case)
 }
